@@ -56,6 +56,51 @@ def mutate_final(evs):
     return None
 
 
+def lock_level_pass(ctx, full, nlock):
+    """Strict pass: every controlled execution (model schedules, DFS, random) validated at lock granularity
+    against UdpConc itself - each acquisition the wrapper saw is the UdpConc action that performs it.  This is
+    what carries the model's deadlock-freedom over to the code's lock discipline.  Rejection = model drift."""
+    runs = split_runs(full)
+    ctl = [r for r in runs if '"kind":"free"' not in r[0]]
+    if not ctx.quick():
+        sel = ctl
+    else:
+        # quick: every replayed model schedule and a share of the DFS / random executions
+        sel = [r for r in ctl if '"kind":"schedule"' in r[0]]
+        rest = [r for r in ctl if '"kind":"schedule"' not in r[0]]
+        sel += rest[::4]
+    lpath = ctx.path("lock_trace.ndjson")
+    nev = 0
+    with open(lpath, "w") as f:
+        for r in sel:
+            f.writelines(r)
+            nev += len(r)
+    res = validate_trace(ctx, "UdpConc_Trace", "UdpConc_Trace.cfg", lpath, name="lock_level", timeout=1500)
+    info = {"runs": len(sel), "events": nev, "lock_events_recorded": nlock, "accepted": res["accepted"]}
+    ctx.coverage.setdefault("strict_pass", {})["lock_level"] = info
+    if res["accepted"]:
+        ctx.stage("strict:lock_level", **info)
+        # binding self-test of the strict pass: drop one acquisition event - must be rejected
+        evs = [json.loads(x) for x in sel[0]]
+        idx = [i for i, e in enumerate(evs) if e.get("ev") == "acq"]
+        if idx:
+            mut = evs[:idx[len(idx) // 2]] + evs[idx[len(idx) // 2] + 1:]
+            mp = ctx.path("lock_selftest.ndjson")
+            with open(mp, "w") as f:
+                for e in mut:
+                    f.write(json.dumps(e) + "\n")
+            r2 = validate_trace(ctx, "UdpConc_Trace", "UdpConc_Trace.cfg", mp, name="lock_selftest")
+            if r2["accepted"]:
+                raise ToolError("binding self-test: a lock trace with one acquisition removed was ACCEPTED by UdpConc_Trace")
+            ctx.stage("selftest", mutation="one acq event removed from a lock-level trace", rejected_at=r2["matched"] + 1)
+        return True
+    ctx.model_drift = {"label": "lock_level", "first_mismatch_index": res["matched"] + 1,
+                       "event": json.dumps(res["event"])[:600], "last_state": res["last_state"]}
+    log("MODEL-DRIFT (no verdict): the code's lock sequence no longer matches UdpConc at event %d: %s"
+        % (res["matched"] + 1, json.dumps(res["event"])[:300]))
+    return False
+
+
 def run(ctx):
     quick = ctx.quick()
     # 1. the design: every interleaving of the catalogue's programs
@@ -109,6 +154,17 @@ def run(ctx):
     write_behaviours(jpath, jobs)
     p = run_harness(ctx, "udp_sched", [jpath, tpath], timeout=1800)
     ctx.stage("exec", note=p.stderr.strip().splitlines()[-1] if p.stderr.strip() else "")
+    # the executor logs lock events (acq / rel) as well: the op-level (deciding) pass sees calls, returns and
+    # the quiescent state only; the lock-level (strict) pass below sees everything
+    full = tpath
+    tpath = ctx.path("sched_trace_ops.ndjson")
+    nlock = 0
+    with open(tpath, "w") as f:
+        for line in open(full):
+            if '"ev":"acq"' in line or '"ev":"rel"' in line:
+                nlock += 1
+                continue
+            f.write(line)
     kinds = {}
     ndead = npanic = 0
     for line in open(tpath):
@@ -123,6 +179,8 @@ def run(ctx):
     if not fails:
         binding_selftest(ctx, "UdpLin_Trace", "UdpLin_Trace.cfg", tpath, mutate_reply, label="selftest_reply")
         binding_selftest(ctx, "UdpLin_Trace", "UdpLin_Trace.cfg", tpath, mutate_final, label="selftest_final")
+    if not fails:
+        lock_level_pass(ctx, full, nlock)
     ctx.coverage.update({
         "model_schedules_replayed": len(scheds), "distinct_programs": len(progs),
         "executions_by_kind": kinds, "deadlock_events": ndead, "panic_events": npanic,
